@@ -6,6 +6,7 @@ import (
 	"hash/fnv"
 	"math/rand"
 	"path/filepath"
+	"sort"
 	"strconv"
 	"strings"
 	"testing"
@@ -160,7 +161,7 @@ func extractSpec(s *rspec.Spec, cdi []string) *CState {
 			if _, dup := c.Devs[d.Path]; dup {
 				c.Anomal = append(c.Anomal, fmt.Sprintf("device path %q listed more than once", d.Path))
 			}
-			c.Devs[d.Path] = strconv.FormatInt(d.Major, 10)
+			c.Devs[d.Path] = devDesc(d.Type, d.Major, d.Minor, d.FileMode, d.UID, d.GID)
 		}
 		c.CgPath = l.CgroupsPath
 		if l.IntelRdt != nil && l.IntelRdt.ClosID != "" {
@@ -340,6 +341,24 @@ func c13Run(t *testing.T, wl any, sc SchedCfg) *Result {
 		if d := want.diff(got, false); len(d) > 0 {
 			res.Violate("C13.model", "map order #%d: the adjusted spec is not the original with the marked items removed and the given items set: %s; adjustment %s", perm, fmtDiffs(d), c13Desc(w))
 		}
+		// device cgroup rules: the original ones stay, and every device the adjustment sets is allowed
+		// by a rule of its own type, major:minor and access (compared as multisets)
+		wantRules := c13DevRules(spec0)
+		for _, d := range adj.GetLinux().GetDevices() {
+			if _, marked := d.IsMarkedForRemoval(); !marked {
+				acc := "rw"
+				if d.Type == "b" {
+					acc = "rwm"
+				}
+				wantRules = append(wantRules, fmt.Sprintf("allow %s %d:%d %s", d.Type, d.Major, d.Minor, acc))
+			}
+		}
+		gotRules := c13DevRules(side.g.Config)
+		sort.Strings(wantRules)
+		sort.Strings(gotRules)
+		if strings.Join(wantRules, "; ") != strings.Join(gotRules, "; ") {
+			res.Violate("C13.model", "map order #%d: device cgroup rules: want [%s], got [%s]; adjustment %s", perm, strings.Join(wantRules, "; "), strings.Join(gotRules, "; "), c13Desc(w))
+		}
 		if rem := c13Remainder(side.g.Config); rem != rem0 {
 			res.Violate("C13.untouched", "map order #%d: parts of the spec that no adjustment names changed: before %s after %s", perm, clip(rem0), clip(rem))
 		}
@@ -389,6 +408,28 @@ func c13Run(t *testing.T, wl any, sc SchedCfg) *Result {
 	res.Kinds = map[string]int{"permutation": 24}
 	res.Summary = map[string]any{"adjustment": c13Desc(w), "largest_ranged_map": maxKeys, "permutations_applied": 24}
 	return res
+}
+
+func c13DevRules(s *rspec.Spec) []string {
+	var out []string
+	if s.Linux == nil || s.Linux.Resources == nil {
+		return out
+	}
+	for _, r := range s.Linux.Resources.Devices {
+		v := "deny"
+		if r.Allow {
+			v = "allow"
+		}
+		maj, min := "*", "*"
+		if r.Major != nil {
+			maj = strconv.FormatInt(*r.Major, 10)
+		}
+		if r.Minor != nil {
+			min = strconv.FormatInt(*r.Minor, 10)
+		}
+		out = append(out, fmt.Sprintf("%s %s %s:%s %s", v, r.Type, maj, min, r.Access))
+	}
+	return out
 }
 
 func c13Desc(w *C13W) string {
